@@ -1,5 +1,7 @@
 import RsModel.Lemmas.Lines
 import RsModel.Model.Tree
+import RsModel.Lemmas.TreeText
+import RsModel.Lemmas.HasText
 /-!
 # C01 — streamed chunks reassemble exactly to `source()`
 -/
@@ -17,6 +19,51 @@ theorem c01_original (t name : Text) (c : Bool) : evsText (streamOriginal t name
 /-- line and token splitting lose nothing (what every leaf stream is built on) -/
 theorem c01_split_join (t : Text) : (splitLines t).flatten = t ∧ (tokens t).flatten = t :=
   ⟨splitLines_join t, tokens_join t⟩
+
+/-- **C01, full statement.**  For every source tree (all eight node kinds, any depth), either column setting and
+any store of previously cached maps, streaming with `final_source = false` delivers chunks whose texts concatenate
+to `source()`, and every delivered chunk carries its text.
+
+`s.WF` is exactly what the property's quantifier and Rust's types provide: replacements have `start ≤ end`; the
+text of a `SourceMapSource` and the text a `CachedSource` replays from are Rust `String`s (each line starts on a
+character boundary and the length fits `usize`).  Attached maps, inner maps, the cache contents and the inner
+stream's chunking are arbitrary. -/
+theorem c01 (s : Src) (c : Bool) (σ : Store) (h : s.WF) :
+    evsText (s.stream ⟨c, false⟩ σ).1.evs = s.src ∧ ∀ e ∈ (s.stream ⟨c, false⟩ σ).1.evs, e.textless = false :=
+  ⟨Src.stream_text s c σ h, (evsTL_false_iff _).1 (Src.stream_tl s c σ)⟩
+
+/-- the splice performed while streaming equals the splice of `source()` for ANY inner stream (any chunking, any
+mappings): the heart of the ReplaceSource case -/
+theorem c01_replace (sorted : List Repl) (inner : SResult) (hwf : ∀ r ∈ sorted, r.start ≤ r.stop) :
+    evsText (replaceStream sorted inner).evs = specGo 0 (evsText inner.evs) sorted :=
+  replaceStream_text sorted inner hwf
+
+/-- map-driven splitting loses no text whatever the map says (segments outside the text, backwards, …) -/
+theorem c01_sourcemap (t : Text) (sm : SMap) (c : Bool) (h : TextOK t) : evsText (streamSM t sm ⟨c, false⟩).evs = t :=
+  streamSM_text t sm c h
+
+/-- the hypotheses of `c01` are satisfiable by a tree using every composite: Cached(Replace(Concat(SourceMapSource
+with a map, Original))) with a multi-byte character and a replacement reaching beyond the end -/
+example : (Src.cached 0 (.replace (.concat (.cons (.sms [97, 10, 0xC3, 0xA9] [102] { mappings := [65, 65, 65, 65], sources := [[120]], sourcesContent := [], names := [] } none none false)
+      (.cons (.orig [98, 59] [103]) .nil))) [⟨1, 2, [122], none, 1⟩, ⟨5, 99, [], none, 1⟩])).WF := by
+  have hs : splitLines [97, 10, 0xC3, 0xA9] = [[97, 10], [0xC3, 0xA9]] := by decide
+  have hT : TextOK [97, 10, 0xC3, 0xA9] := by
+    refine ⟨?_, by decide⟩
+    rw [hs]; intro ln hl
+    simp only [List.mem_cons, List.not_mem_nil, or_false] at hl
+    rcases hl with rfl | rfl <;> (intro b rest hb; cases hb; decide)
+  have hsrc : (Src.replace (.concat (.cons (.sms [97, 10, 0xC3, 0xA9] [102] { mappings := [65, 65, 65, 65], sources := [[120]], sourcesContent := [], names := [] } none none false)
+      (.cons (.orig [98, 59] [103]) .nil))) [⟨1, 2, [122], none, 1⟩, ⟨5, 99, [], none, 1⟩]).src = [97, 122, 0xC3, 0xA9, 98] := by decide
+  refine ⟨⟨⟨hT, trivial, trivial⟩, ?_⟩, ?_⟩
+  · intro r hr
+    simp only [List.mem_cons, List.not_mem_nil, or_false] at hr
+    rcases hr with rfl | rfl <;> decide
+  · rw [hsrc]
+    have hs2 : splitLines [97, 122, 0xC3, 0xA9, 98] = [[97, 122, 0xC3, 0xA9, 98]] := by decide
+    refine ⟨?_, by decide⟩
+    rw [hs2]; intro ln hl
+    simp only [List.mem_cons, List.not_mem_nil, or_false] at hl
+    subst hl; intro b rest hb; cases hb; decide
 
 example : evsText (streamOriginal [97, 59, 98, 10, 99] [102] ⟨true, false⟩).evs = [97, 59, 98, 10, 99] := by decide
 
